@@ -10,6 +10,10 @@ CHECKS = {
    technique="explicit enumeration of all inheritance forests (<=3 nodes x all define-patterns; 4 nodes thorough) through the real Loader vs an independent resolver on the raw JSON",
    text="Every forest of <=3 descriptions with <=2 ordered parents each (chains, diamonds, self-loops, 2/3-cycles, missing parents) x every subset of nodes defining every Config field (fields found by reflection) is written to disk and loaded with cold and warm caches in both orders; results must equal an independent resolver, missing/cyclic parents must give an error (run in a child process so a crash or hang is observed). All shipped targets are resolved in three load orders against the same reference.",
    note="'defined' = non-zero value; forests are bounded at 3 nodes (4 in thorough, rotating define-patterns); useTarget's flag derivation is not covered.", ref="§4 C18"),
+ "C20": dict(cat="exploration", engine="enum",
+   technique="bounded-exhaustive enumeration of archive entry sequences x 3 formats through the real extract functions in a canary sandbox",
+   text="Every sequence of <=2 (thorough <=3) entries from a 20-entry pool covering every escape shape (.. at several depths, sibling-prefix names, absolute, symlink-then-file) and every well-formedness wrinkle (missing parent entries, duplicates, clashes) is packed as tar.gz, zip and tar.xz and extracted by the real code; nothing outside the destination may change, escaping entries must give an error, well-formed archives must be re-created byte for byte.",
+   note="Concurrent-request part (flock/rename protocol under the scheduler) is not built yet; GNU tar 1.34 is the tar.xz back end.", ref="§4 C20"),
 }
 ALL = ["C%02d" % i for i in range(1, 21)]
 m = {
